@@ -617,6 +617,21 @@ func (s *sim) finalCheck() {
 		}
 	}
 	if S < s.maxSeen {
+		// the same exclusion for the leader itself: when so many followers are
+		// stuck behind the back-pressure threshold (known finding of C04/C06:
+		// they drop every MsgApp, including the commit index) that the leader
+		// has no majority left, it cannot commit - and so not apply - what an
+		// earlier leader had already applied
+		nonStuck := 0
+		for _, m := range cl.M {
+			if !cl.BackpressureStuck(m, 0) {
+				nonStuck++
+			}
+		}
+		if nonStuck*2 <= len(cl.M) {
+			c.Probe("cluster_stuck_by_backpressure_excluded")
+			return
+		}
 		c.Violate("C19", "position-lost", "", "synced index %d after settling is below %d observed earlier (restart/snapshot lost the position)", S, s.maxSeen)
 		return
 	}
